@@ -6,6 +6,7 @@
 (* final response (Final) or with 3xx and a Location header (Redirect).  The Location is a URI *)
 (* reference of one of the shapes                                                              *)
 (*     "abs"        scheme://host[:port]/path[?query]                                          *)
+(*     "absroot"    scheme://host[:port]          (no path: the root, RFC 3986 6.2.3, RFC 7230 5.3.1) *)
 (*     "schemerel"  //host[:port]/path[?query]                                                 *)
 (*     "pathabs"    /path[?query]                                                              *)
 (*     "pathrel"    seg | ../seg   [?query]                                                    *)
@@ -33,7 +34,8 @@ CONSTANTS Schemes,     \* subset of {"http", "https"}
           Statuses,    \* redirect status codes offered by servers
           QKinds,      \* kinds of query a Location may carry: subset of {"plain", "amp", "plus", "hash", "pct"}
           StartKinds,  \* the start URL's query: subset of {"none", "start"}
-          MaxHops      \* longest chain of redirects
+          MaxHops,     \* longest chain of redirects
+          Rounds       \* requests the user issues one after the other on the same client
 
 VARIABLES phase,      \* "idle" | "sent" (a request is outstanding) | "final" | "refused"
           url,        \* URL of the request outstanding / last sent: [o, path, query]
@@ -43,8 +45,9 @@ VARIABLES phase,      \* "idle" | "sent" (a request is outstanding) | "final" | 
           conns,      \* connections opened by the client so far
           reqs,       \* requests sent by the client so far
           delivered,  \* final responses handed to the user
-          res         \* the final response: [status, redirects] (NoRes before)
-vars == <<phase, url, hosthdr, wrapped, chain, conns, reqs, delivered, res>>
+          res,        \* the final response: [status, redirects] (NoRes before)
+          round       \* which of the user's requests is being served; conns, reqs, delivered, chain, res count per request
+vars == <<phase, url, hosthdr, wrapped, chain, conns, reqs, delivered, res, round>>
 
 Origins == [s : Schemes, h : Hosts, p : PortClasses]
 PortNum(s, p) == IF p = "std" THEN (IF s = "https" THEN 443 ELSE 80) ELSE (IF s = "https" THEN 8443 ELSE 8080)
@@ -72,13 +75,14 @@ Loc(shape, s, h, p, path, q) == [shape |-> shape, s |-> s, h |-> h, p |-> p, pat
 Queries == {NoQ} \cup {[kind |-> k, hop |-> i] : k \in QKinds, i \in 1..MaxHops}
 Locs == LET Q == Queries IN
     {Loc("abs", s, h, p, path, q) : s \in Schemes, h \in Hosts, p \in PortClasses, path \in AbsPaths, q \in Q}
+    \cup {Loc("absroot", s, h, p, <<"">>, NoQ) : s \in Schemes, h \in Hosts, p \in PortClasses}
     \cup {Loc("schemerel", "", h, p, path, q) : h \in Hosts, p \in PortClasses, path \in AbsPaths, q \in Q}
     \cup {Loc("pathabs", "", "", "", path, q) : path \in AbsPaths, q \in Q}
     \cup {Loc("pathrel", "", "", "", path, q) : path \in RelPaths, q \in Q}
 
 \* RFC 3986 5.2.2 for these shapes: the query of the base is never inherited (the reference has a path)
 Resolve(base, loc) ==
-    CASE loc.shape = "abs" -> [o |-> [s |-> loc.s, h |-> loc.h, p |-> loc.p], path |-> loc.path, query |-> loc.q]
+    CASE loc.shape \in {"abs", "absroot"} -> [o |-> [s |-> loc.s, h |-> loc.h, p |-> loc.p], path |-> loc.path, query |-> loc.q]
       [] loc.shape = "schemerel" -> [o |-> [s |-> base.o.s, h |-> loc.h, p |-> loc.p], path |-> loc.path, query |-> loc.q]
       [] loc.shape = "pathabs" -> [o |-> base.o, path |-> loc.path, query |-> loc.q]
       [] loc.shape = "pathrel" -> [o |-> base.o, path |-> Merge(base.path, loc.path), query |-> loc.q]
@@ -88,12 +92,12 @@ HostHdr(u) == <<u.o.h, PortNum(u.o.s, u.o.p)>>
 Init == /\ phase = "idle"
         /\ url \in [o : Origins, path : StartPaths, query : StartQueries]
         /\ hosthdr = HostHdr(url) /\ wrapped = (url.o.s = "https")
-        /\ chain = <<>> /\ conns = 0 /\ reqs = 0 /\ delivered = 0 /\ res = NoRes
+        /\ chain = <<>> /\ conns = 0 /\ reqs = 0 /\ delivered = 0 /\ res = NoRes /\ round = 1
 
 \* the user asks for the start URL: one connection, one request
 Issue == /\ phase = "idle"
          /\ phase' = "sent" /\ conns' = 1 /\ reqs' = 1
-         /\ UNCHANGED <<url, hosthdr, wrapped, chain, delivered, res>>
+         /\ UNCHANGED <<url, hosthdr, wrapped, chain, delivered, res, round>>
 
 \* the server answers 3xx + Location; the client follows (or refuses a downgrade)
 Redirect(st, loc) ==
@@ -101,7 +105,7 @@ Redirect(st, loc) ==
     /\ loc.q = NoQ \/ loc.q.hop = Len(chain) + 1      \* a query that tells the hops apart
     /\ LET t == Resolve(url, loc) IN
        /\ t.o \in Origins
-       /\ chain' = Append(chain, st)
+       /\ chain' = Append(chain, st) /\ UNCHANGED round
        /\ IF url.o.s = "https" /\ t.o.s # "https"
           THEN /\ phase' = "refused"
                /\ UNCHANGED <<url, hosthdr, wrapped, conns, reqs, delivered, res>>
@@ -114,13 +118,22 @@ Redirect(st, loc) ==
 Final == /\ phase = "sent"
          /\ phase' = "final" /\ delivered' = 1
          /\ res' = [status |-> 200, redirects |-> chain]
-         /\ UNCHANGED <<url, hosthdr, wrapped, chain, conns, reqs>>
+         /\ UNCHANGED <<url, hosthdr, wrapped, chain, conns, reqs, round>>
+
+\* after a final response the user issues a further request on the same client, to the origin the client is connected
+\* to: it travels on the connection that is open, starts a chain of its own and gets a final response of its own
+Again(path, q) == /\ phase = "final" /\ round < Rounds
+                  /\ round' = round + 1 /\ phase' = "sent"
+                  /\ url' = [o |-> url.o, path |-> path, query |-> q]
+                  /\ hosthdr' = HostHdr(url') /\ UNCHANGED wrapped
+                  /\ chain' = <<>> /\ conns' = 0 /\ reqs' = 1 /\ delivered' = 0 /\ res' = NoRes
 
 \* further service passes after the end change nothing
 Idle == /\ phase \in {"final", "refused"}
         /\ UNCHANGED vars
 
 Next == \/ Issue \/ Final \/ Idle
+        \/ \E path \in StartPaths, q \in StartQueries : Again(path, q)
         \/ \E st \in Statuses, loc \in Locs : Redirect(st, loc)
 Spec == Init /\ [][Next]_vars
 
@@ -130,11 +143,11 @@ WrappedIffHttps == wrapped = (url.o.s = "https")
 ReconnectIffTargetDiffers ==
     [][(reqs' > reqs /\ reqs > 0) => /\ (url'.o # url.o) => conns' = conns + 1
                                      /\ (url'.o = url.o) => conns' = conns]_vars
-ChainInOrder == /\ [][chain' = chain \/ \E st \in Statuses : chain' = Append(chain, st)]_vars
+ChainInOrder == /\ [][chain' = chain \/ (\E st \in Statuses : chain' = Append(chain, st)) \/ (round' > round /\ chain' = <<>>)]_vars
 ChainDelivered == (phase = "final") => res.redirects = chain
 ExactlyOneFinalResponse == /\ delivered \in {0, 1}
                            /\ (delivered = 1) <=> (phase = "final")
                            /\ (phase # "final") => res = NoRes
-NothingAfterTheEnd == [][(phase \in {"final", "refused"}) => UNCHANGED vars]_vars
+NothingAfterTheEnd == [][(phase \in {"final", "refused"} /\ round' = round) => UNCHANGED vars]_vars
 RequestsCountHops == (phase \in {"sent", "final"}) => reqs = Len(chain) + 1
 =============================================================================
